@@ -181,11 +181,31 @@ impl Engine for HashSim {
 
     fn run(&self, prop: &str, mut ch: Chooser, _scratch: &Path) -> RunOutcome {
         let mut out = RunOutcome::default();
-        let n = ch.weighted(&[1, 6, 2, 1]) + 1;
+        let mut n = ch.weighted(&[1, 6, 2, 1]) + 1;
         let base = gen_text(&mut ch, None);
         let mut inputs = vec![base.clone()];
         for _ in 1..n {
             inputs.push(gen_text(&mut ch, Some(&base)));
+        }
+        // Large reordered inputs: two blocks of unique lines swapped (A++B vs
+        // B++A, optionally a third side with the blocks interleaved). Hundreds of
+        // shared tokens occur once on every side and the competing common
+        // subsequences have similar size, so which one the histogram LCS anchors
+        // on must not depend on the table's iteration order.
+        if ch.chance(1, 12) {
+            let len = *ch.pick(&[60usize, 140, 200, 300]);
+            let eol = *ch.pick(&["\n", "\r\n"]);
+            let block = |tag: &str| -> Vec<String> { (0..len).map(|i| format!("{tag} unique line {i:03}{eol}")).collect() };
+            let (a, b) = (block("alpha"), block("beta"));
+            let ab: String = a.iter().chain(b.iter()).cloned().collect();
+            let ba: String = b.iter().chain(a.iter()).cloned().collect();
+            inputs = vec![ab.into_bytes(), ba.into_bytes()];
+            if ch.chance(1, 3) {
+                let mixed: String = a.iter().zip(b.iter()).flat_map(|(x, y)| [x.clone(), y.clone()]).collect();
+                inputs.push(mixed.into_bytes());
+            }
+            n = inputs.len();
+            out.probe("large_reordered_blocks", 1);
         }
         if ch.chance(1, 10) {
             let i = ch.choose(inputs.len());
